@@ -23,9 +23,19 @@ def gen():
         if R.random() < 0.3: items.append((k, '{\n    %s\n  }' % '\n    '.join('%s = %d;' % (kk, R.randrange(9)) for kk in R.sample(KEYS, R.randint(1, 3)))))
         else: items.append((k, R.choice(['1', '"s"', 'true', '[ 1 ]', './p.nix'])))
     body = '{\n' + ''.join('  %s = %s;\n' % kv for kv in items) + '}' if items else '{ }'
-    shape = R.choice(['bare', 'lambda', 'let'])
+    shape = R.choice(['bare', 'lambda', 'let', 'assert', 'with', 'paren', 'call', 'lambda_call', 'let_ident', 'let_call_ident', 'lambda_let', 'with_ident'])
     if shape == 'lambda': return '{ pkgs }:\n' + body + '\n', shape
     if shape == 'let': return 'let\n  v = 1;\n  w = "s";\nin\n' + body + '\n', shape
+    # every other wrapper the document mapping looks through (coverage probe: NixSourceCode._resolve_target_set)
+    if shape == 'assert': return 'assert cond;\n' + body + '\n', shape
+    if shape == 'with': return 'with pkgs;\n' + body + '\n', shape
+    if shape == 'paren': return '(' + body + ')\n', shape
+    if shape == 'call': return 'mk ' + body + '\n', shape
+    if shape == 'lambda_call': return '{ stdenv }:\nstdenv.mkDerivation ' + body + '\n', shape
+    if shape == 'let_ident': return 'let\n  cfg = ' + body.replace('\n', '\n  ') + ';\nin\ncfg\n', shape
+    if shape == 'let_call_ident': return 'let\n  cfg = ' + body.replace('\n', '\n  ') + ';\nin\nmk cfg\n', shape
+    if shape == 'lambda_let': return '{ pkgs }:\nlet\n  v = 1;\nin\n' + body + '\n', shape
+    if shape == 'with_ident': return 'let\n  cfg = ' + body.replace('\n', '\n  ') + ';\nin\nwith { z = 1; };\ncfg\n', shape
     return body + '\n', shape
 def text_map(text, path=()):
     t = read_tree(text)
